@@ -21,10 +21,11 @@ func vStubToCommon64(b []byte, beginIdx, endIdx int) {
 	vRWCalls++
 }
 
-func vH_C16_nonce_pattern()  { vNoncePattern(false) }
-func vH_C16_nonce_pattern2() { vNoncePattern(true) }
+func vH_C16_nonce_pattern()       { vNoncePattern(false, false) }
+func vH_C16_nonce_pattern_clone() { vNoncePattern(false, true) }
+func vH_C16_nonce_pattern2()      { vNoncePattern(true, vNondetBool("clone")) }
 
-func vNoncePattern(twoPrefixes bool) {
+func vNoncePattern(twoPrefixes bool, clone bool) {
 	key := vNondetBytes("key", 32)
 	c, err := newXChaCha20Poly1305BlockCipher(key)
 	vAssert(err == nil, "cipher built")
@@ -56,7 +57,7 @@ func vNoncePattern(twoPrefixes bool) {
 	stateful := vNondetBool("stateful")
 	c.SetImplicitNonceMode(stateful)
 	use := c
-	if vNondetBool("clone") {
+	if clone {
 		use = c.Clone().(*aeadBlockCipher)
 		got := use.NoncePattern()
 		vAssert(got != nil && got.GetType() == typ && got.GetMinLen() == minLen && got.GetMaxLen() == maxLen, "a clone reports the same nonce pattern")
